@@ -70,7 +70,8 @@ impl QueuingMetricSinkBuilder {
 
         spawn_worker_in_thread(worker.clone());
 
-        QueuingMetricSink { worker, sink }
+        let stopper = Arc::new(StopOnLastDrop { worker: worker.clone() });
+        QueuingMetricSink { worker, sink, stopper }
     }
 
     /// Set error handler called when the wrapped sink fails to emit a metric.
@@ -145,6 +146,10 @@ impl QueuingMetricSinkBuilder {
 pub struct QueuingMetricSink {
     worker: Arc<Worker>,
     sink: Arc<dyn MetricSink + Send + Sync + RefUnwindSafe>,
+    // Shared by every clone of this sink so that the worker is only
+    // stopped once the last of them has been dropped.
+    #[allow(dead_code)]
+    stopper: Arc<StopOnLastDrop>,
 }
 
 impl fmt::Debug for QueuingMetricSink {
@@ -279,11 +284,17 @@ impl MetricSink for QueuingMetricSink {
     }
 }
 
-impl Drop for QueuingMetricSink {
+/// Guard shared (via `Arc`) by all clones of a `QueuingMetricSink`.
+struct StopOnLastDrop {
+    worker: Arc<Worker>,
+}
+
+impl Drop for StopOnLastDrop {
     /// Send the worker a signal to stop processing metrics.
     ///
     /// Note that this destructor only sends the worker thread a signal to
-    /// stop, it doesn't wait for it to stop.
+    /// stop, it doesn't wait for it to stop. It runs when the last clone of
+    /// the owning `QueuingMetricSink` is dropped, not for every clone.
     fn drop(&mut self) {
         self.worker.stop();
     }
